@@ -56,10 +56,14 @@ Inductive VSpell : bool -> str -> str -> Prop :=
 | VSBreak sp cl c v t : Spaces sp -> CommentLines cl -> cont_safe c = true -> VSpell false (c :: v) t ->
     VSpell false (cSP :: c :: v) (cBS :: sp ++ cNL :: cl ++ t).
 
-(* an entry line without its newline *)
+(* an entry line without its newline; ELTrail: the value's last line ends in a backslash and the next line is empty (or blank):
+   "joins the next line with a single space", and the white space at the end of the value is dropped *)
 Inductive EntryLine (k v : str) : str -> Prop :=
 | EL ind b1 b2 vt tb : LineWs ind -> Blanks b1 -> Blanks b2 -> VSpell false v vt -> Blanks tb ->
-    EntryLine k v (ind ++ k ++ b1 ++ cEQ :: b2 ++ vt ++ tb).
+    EntryLine k v (ind ++ k ++ b1 ++ cEQ :: b2 ++ vt ++ tb)
+| ELTrail ind b1 b2 vt tb sp cl tb2 : LineWs ind -> Blanks b1 -> Blanks b2 -> VSpell false v vt -> Blanks tb ->
+    Spaces sp -> CommentLines cl -> Blanks tb2 ->
+    EntryLine k v (ind ++ k ++ b1 ++ cEQ :: b2 ++ vt ++ tb ++ cBS :: sp ++ cNL :: cl ++ tb2).
 
 Section WithValueOk.
   (* which raw values a file can carry: decided by the code's load-time validation, a parameter here;
